@@ -40,9 +40,9 @@ TRUSTED = [
     '(covered by the sweep on real constants only), FSTView targets (Dict/arguments/Compare multi-node items), MRE, '
     'MCB, search(nested=False, on=leave/both, send()); sublist bodies that can match the empty sequence (bounded '
     'quantifier) are only checked on four fixed witnesses against re (an empty slice carries no index to compare)',
-    'expr_context instances inside AST patterns are serialised as the type pattern expr_context (ctx=False); an '
-    'expr_context instance used as a search pattern itself, and str / re / MRE / MCB patterns, are not modelled: they '
-    'are checked against the walk oracle only (finding C17-F6 is of the first kind)',
+    'expr_context instances inside AST patterns are serialised as the type pattern expr_context (ctx=False), as a '
+    'search pattern themselves as Pat.ctxInst; str / re / MRE / MCB patterns are not modelled: they are checked '
+    'against the walk oracle only; match option ctx=True is not modelled',
     'MTYPES with fields is modelled for fields that exactly one of the listed classes has',
     'the `re` oracle is used only where the pattern has a faithful rendering: every tag captured at one place, '
     'references after their capture, no reference across a tagged quantifier',
@@ -100,7 +100,7 @@ def extract(ctx):
            f'def badTargets : List Nat := {lst(bad)}\n'
            + ''.join(f'def k{nm} : Nat := {num[getattr(ast, nm)]}\n' for nm in named) + '\n'
            'def kinds : Kinds :=\n  { leafOf := fun k => leafTable.getD k [], inst := fun k => instTable.getD k [], all := all,\n'
-           '    noneKind := noneKind }\n\nend Pfst.Gen.Leaf\n')
+           f'    noneKind := noneKind, ctxKind := {num[ast.expr_context]} }}\n\nend Pfst.Gen.Leaf\n')
     framework.write_if_changed(framework.LEAN / 'Pfst' / 'Gen' / 'Leaf.lean', txt)
     ctx.notes['kinds'] = n
     ctx.notes['unsound_leaf_entries'] = [classes[k].__name__ for k in unsound]
